@@ -33,13 +33,27 @@
      Ok(true) / Ok(false), Ok(other)                    ROkBool, ROkVar on an Option<u8> binder
      PAT ::= .. | other (binds the whole scrutinee)  |  PAT | PAT (no binders)                PBindAny, PAlt
 
+   Third family (tools/translate_ignore.py -> Gen/IgnoreTables.v, Proofs/IgnoreSrc.v): Deserializer::ignore_value, the iterative skip scanner.
+   `self.scratch` (a Vec<u8> used as the stack of open brackets) is the interpreter's [buf] there (the cursor functions it calls leave [buf]
+   alone, Proofs/CursorSrc.v).  Added for it:
+     self.scratch.clear();                              SClear
+     self.scratch.extend(x.take());                     SExtendTake x        (x : Option<u8>: pushed when Some, then x = None)
+     let [mut] x = ME;  let (mut x, mut y) = ME;  x = ME;                    SLetM / SLetPair / SAssignM
+        ME ::= None | Some(y) | y | (true|false, y) | return R
+             | match MS { PAT => ME, PAT => { item* ME }, .. }               MS ::= tri!(SCRUT) | y | y.take() | self.scratch.pop()
+     tri!(self.f());  tri!(self.f(b"lit"));             STry f arg           (f : .. -> Result<()>)
+     tri!(self.read.ignore_str());                      SIgnoreStr           Read::ignore_str = Model/Str.v ignore_str (a primitive)
+     break;                                             SBreak               leaves the innermost loop, locals kept ([OBrk])
+     match tri!(SCRUT) { PAT [if COND] => .., .. }      SMatchG              guards: x == b'c' or a bool variable
+     Err(self.peek_error(match x { b'c' => ErrorCode::A, .., _ => unreachable!() }))      RErrSel (no alternative matches: [Panic])
+
    `tri!(e)` is `match e { Ok(v) => v, Err(err) => return Err(err) }`: exactly [bind] of the [res] monad, which is how an I/O failure of the
    reader (`tm E = TFail kind`, surfacing from peek / next as `Err (Io kind) 0`) leaves every function at once.
    Loops and calls take explicit fuel: [exec] recurses on fuel only (one unit per nesting level, loop iteration and call);
    [OutOfFuel] when exhausted.  A program that is stuck (unbound variable, unknown function, no arm matches, a function body that ends
    without returning) yields [Panic]; the models never do in these functions, so the equalities of Proofs/ScanSrc.v rule that out. *)
 From Coq Require Import String.
-From SJ Require Import Base.Bytes Base.Utf8 Model.Read.
+From SJ Require Import Base.Bytes Base.Utf8 Model.Read Model.Str.
 Open Scope N_scope.
 
 (* ---- syntax ----------------------------------------------------------------------------- *)
@@ -56,7 +70,8 @@ Inductive rexpr :=
   | ROkUnit | ROkVar (x : string)
   | RErr (peeked : bool) (c : ecode)         (* Err(self.error(c)) : false,  Err(self.peek_error(c)) : true *)
   | RCall (f : string) (arg : option string)
-  | ROkBool (b : bool).
+  | ROkBool (b : bool)
+  | RErrSel (peeked : bool) (x : string) (alts : list (byte * ecode)).
 Inductive cond :=
   | CEqLit (x : string) (b : byte)           (* x == b'c' *)
   | CNeVar (x y : string)                    (* x != *y *)
@@ -74,15 +89,29 @@ Inductive stmt :=
   | SIf (c : cond) (body : list stmt)
   | SIfElse (c : cond) (a b : list stmt)
   | SLetMatch (x : string) (sc : scrut) (arms : list (pat * letarm))
+  | SClear | SExtendTake (x : string)
+  | SLetM (x : string) (e : mexpr) | SLetPair (x y : string) (e : mexpr) | SAssignM (x : string) (e : mexpr)
+  | STry (f : string) (arg : option bytes) | SIgnoreStr
+  | SBreak
+  | SMatchG (sc : scrut) (arms : list (pat * option cond * list stmt))
 with letarm :=
   | AVar (y : string)                        (* PAT => y          : the value of the match *)
-  | ADiverge (body : list stmt).             (* PAT => { .. }     : a block that returns *)
+  | ADiverge (body : list stmt)              (* PAT => { .. }     : a block that returns *)
+with mexpr :=                                (* value expressions with `match` (third family) *)
+  | MNone | MSome (y : string) | MVar (y : string) | MPair (b : bool) (y : string)
+  | MRet (r : rexpr)                         (* the arm returns instead of yielding a value *)
+  | MMatch (sc : mscrut) (arms : list (pat * list stmt * mexpr))       (* arm: statements, then the value; own scope *)
+with mscrut :=
+  | MsTri (sc : scrut)                       (* tri!(SCRUT) *)
+  | MsVar (x : string)                       (* x *)
+  | MsTake (x : string)                      (* x.take() *)
+  | MsPop.                                   (* self.scratch.pop() *)
 
 Record fdef := mkFn { fparam : option string; fbody : list stmt }.     (* the `buf: &mut String` parameter is implicit *)
 Definition table := list (string * fdef).
 
 (* ---- values, scoped locals -------------------------------------------------------------- *)
-Inductive val := VByte (b : byte) | VBool (b : bool) | VOpt (o : option byte) | VBytes (l : bytes).
+Inductive val := VByte (b : byte) | VBool (b : bool) | VOpt (o : option byte) | VBytes (l : bytes) | VPair (a : bool) (b : byte).
 Inductive retval := RUnit | RByte (b : byte) | ROpt (o : option byte) | RBool (b : bool).
 Inductive sval := SvByte (b : byte) | SvOpt (o : option byte).        (* what a scrutinee evaluates to *)
 
@@ -152,7 +181,8 @@ Definition eval_cond (c : cond) (l : locals) : option bool :=
 (* ---- execution -------------------------------------------------------------------------- *)
 Inductive outcome :=
   | OFall (l : locals) (buf : bytes) (s : st)          (* the statement / block completed; control goes on *)
-  | ORet (r : retval) (buf : bytes) (s : st).          (* the function returned Ok(r) *)
+  | ORet (r : retval) (buf : bytes) (s : st)           (* the function returned Ok(r) *)
+  | OBrk (l : locals) (buf : bytes) (s : st).          (* `break`: the innermost loop is left *)
 
 Definition exec_t := stmt -> locals -> bytes -> st -> res outcome.
 Definition call_t := string -> option byte -> st -> bytes -> res (retval * bytes * st).
@@ -161,20 +191,28 @@ Fixpoint exec_block (ex : exec_t) (ss : list stmt) (l : locals) (buf : bytes) (s
   match ss with
   | [] => Ok (OFall l buf s)
   | x :: r => let* o := ex x l buf s in
-              match o with OFall l' buf' s' => exec_block ex r l' buf' s' | ORet _ _ _ => Ok o end
+              match o with OFall l' buf' s' => exec_block ex r l' buf' s' | _ => Ok o end
   end.
 
 (* a nested block: its own frame [fr] (the arm's binder, if any), popped when the block completes *)
 Definition exec_scope (ex : exec_t) (fr : frame) (ss : list stmt) (l : locals) (buf : bytes) (s : st) : res outcome :=
   let* o := exec_block ex ss (fr :: l) buf s in
-  match o with OFall l' buf' s' => Ok (OFall (tl l') buf' s') | ORet _ _ _ => Ok o end.
+  match o with
+  | OFall l' buf' s' => Ok (OFall (tl l') buf' s')
+  | ORet _ _ _ => Ok o
+  | OBrk l' buf' s' => Ok (OBrk (tl l') buf' s')
+  end.
 
 (* `for x in xs { body }`: one scoped run of the body per element *)
 Fixpoint exec_for (ex : exec_t) (x : string) (body : list stmt) (bs : bytes) (l : locals) (buf : bytes) (s : st) : res outcome :=
   match bs with
   | [] => Ok (OFall l buf s)
   | b :: r => let* o := exec_scope ex [(x, VByte b)] body l buf s in
-              match o with OFall l' buf' s' => exec_for ex x body r l' buf' s' | ORet _ _ _ => Ok o end
+              match o with
+              | OFall l' buf' s' => exec_for ex x body r l' buf' s'
+              | ORet _ _ _ => Ok o
+              | OBrk l' buf' s' => Ok (OFall l' buf' s')
+              end
   end.
 
 Fixpoint find_fn (fn : string) (T : table) : option fdef :=
@@ -195,7 +233,7 @@ Definition call_fn (ex : exec_t) (T : table) : call_t := fun fn arg s buf =>
     | None => Panic
     | Some fr =>
       let* o := exec_block ex (fbody d) [fr] buf s in
-      match o with ORet r buf' s' => Ok (r, buf', s') | OFall _ _ _ => Panic end
+      match o with ORet r buf' s' => Ok (r, buf', s') | _ => Panic end
     end
   end.
 
@@ -221,6 +259,15 @@ Definition eval_ret (call : call_t) (E : env) (r : rexpr) (l : locals) (buf : by
                 | _ => Panic
                 end
   | ROkBool b => Ok (ORet (RBool b) buf s)
+  | RErrSel peeked x alts =>
+    match lookup x l with
+    | Some (VByte v) =>
+      match find (fun a => v =? fst a) alts with
+      | Some (_, c) => if peeked then peek_error E s c else error E s c
+      | None => Panic                                   (* unreachable!() *)
+      end
+    | _ => Panic
+    end
   | RErr false c => error E s c
   | RErr true c => peek_error E s c
   | RCall f None => let* (r, buf', s') := call f None s buf in Ok (ORet r buf' s')
@@ -228,6 +275,96 @@ Definition eval_ret (call : call_t) (E : env) (r : rexpr) (l : locals) (buf : by
                         | Some (VByte b) => let* (r, buf', s') := call f (Some b) s buf in Ok (ORet r buf' s')
                         | _ => Panic
                         end
+  end.
+
+(* ---- third family: value expressions, guarded arms ------------------------------------- *)
+Definition call_v_t := string -> option val -> st -> bytes -> res (retval * bytes * st).
+
+Definition call_fn_v (ex : exec_t) (T : table) : call_v_t := fun fn arg s buf =>
+  match find_fn fn T with
+  | None => Panic
+  | Some d =>
+    match match fparam d, arg with None, None => Some [] | Some x, Some v => Some [(x, v)] | _, _ => None end with
+    | None => Panic
+    | Some fr =>
+      let* o := exec_block ex (fbody d) [fr] buf s in
+      match o with ORet r buf' s' => Ok (r, buf', s') | _ => Panic end
+    end
+  end.
+
+Inductive mres := MV (v : val) (l : locals) (buf : bytes) (s : st) | MO (o : outcome).
+
+Fixpoint select_m (arms : list (pat * list stmt * mexpr)) (v : sval) : option (frame * list stmt * mexpr) :=
+  match arms with
+  | [] => None
+  | (p, pre, e) :: r => match pat_match p v with Some fr => Some (fr, pre, e) | None => select_m r v end
+  end.
+
+(* first arm whose pattern matches and whose guard (read with the arm's binder in scope) holds *)
+Fixpoint select_g (arms : list (pat * option cond * list stmt)) (v : sval) (l : locals) : option (frame * list stmt) :=
+  match arms with
+  | [] => None
+  | (p, g, body) :: r =>
+    match pat_match p v with
+    | Some fr =>
+      match g with
+      | None => Some (fr, body)
+      | Some c => match eval_cond c (fr :: l) with Some true => Some (fr, body) | _ => select_g r v l end
+      end
+    | None => select_g r v l
+    end
+  end.
+
+Definition sval_of (v : val) : option sval :=
+  match v with VByte b => Some (SvByte b) | VOpt o => Some (SvOpt o) | _ => None end.
+
+Definition eval_mscrut (call : call_t) (E : env) (sc : mscrut) (l : locals) (buf : bytes) (s : st) : res (sval * locals * bytes * st) :=
+  match sc with
+  | MsTri sc' => let* (v, buf1, s1) := eval_scrut call E sc' s buf in Ok (v, l, buf1, s1)
+  | MsVar x => match lookup x l with
+               | Some w => match sval_of w with Some v => Ok (v, l, buf, s) | None => Panic end
+               | None => Panic
+               end
+  | MsTake x => match lookup x l with
+                | Some (VOpt o) => match assign x (VOpt None) l with Some l' => Ok (SvOpt o, l', buf, s) | None => Panic end
+                | _ => Panic
+                end
+  | MsPop => match rev buf with
+             | [] => Ok (SvOpt None, l, buf, s)
+             | b :: r => Ok (SvOpt (Some b), l, rev r, s)
+             end
+  end.
+
+Fixpoint eval_m (ex : exec_t) (call : call_t) (E : env) (n : nat) (e : mexpr) (l : locals) (buf : bytes) (s : st) {struct n} : res mres :=
+  match n with
+  | O => OutOfFuel
+  | S n' =>
+    match e with
+    | MNone => Ok (MV (VOpt None) l buf s)
+    | MSome y => match lookup y l with Some (VByte b) => Ok (MV (VOpt (Some b)) l buf s) | _ => Panic end
+    | MVar y => match lookup y l with Some v => Ok (MV v l buf s) | None => Panic end
+    | MPair a y => match lookup y l with Some (VByte b) => Ok (MV (VPair a b) l buf s) | _ => Panic end
+    | MRet r => let* o := eval_ret call E r l buf s in Ok (MO o)
+    | MMatch sc arms =>
+      let* (v, l1, buf1, s1) := eval_mscrut call E sc l buf s in
+      match select_m arms v with
+      | None => Panic
+      | Some (fr, pre, e') =>
+        let* o := exec_block ex pre (fr :: l1) buf1 s1 in
+        match o with
+        | OFall l2 buf2 s2 =>
+          let* r := eval_m ex call E n' e' l2 buf2 s2 in
+          match r with
+          | MV w l3 buf3 s3 => Ok (MV w (tl l3) buf3 s3)
+          | MO (OFall l3 buf3 s3) => Ok (MO (OFall (tl l3) buf3 s3))
+          | MO (OBrk l3 buf3 s3) => Ok (MO (OBrk (tl l3) buf3 s3))
+          | MO (ORet _ _ _) => Ok r
+          end
+        | ORet _ _ _ => Ok (MO o)
+        | OBrk l2 buf2 s2 => Ok (MO (OBrk (tl l2) buf2 s2))
+        end
+      end
+    end
   end.
 
 Fixpoint exec (fuel : nat) (E : env) (T : table) (x : stmt) (l : locals) (buf : bytes) (s : st) {struct fuel} : res outcome :=
@@ -260,6 +397,7 @@ Fixpoint exec (fuel : nat) (E : env) (T : table) (x : stmt) (l : locals) (buf : 
         match o with
         | OFall l' buf' s' => exec f E T (SWhileLet p sc body) l' buf' s'
         | ORet _ _ _ => Ok o
+        | OBrk l' buf' s' => Ok (OFall l' buf' s')
         end
       | None => Ok (OFall l buf1 s1)
       end
@@ -268,6 +406,7 @@ Fixpoint exec (fuel : nat) (E : env) (T : table) (x : stmt) (l : locals) (buf : 
       match o with
       | OFall l' buf' s' => exec f E T (SLoop body) l' buf' s'
       | ORet _ _ _ => Ok o
+      | OBrk l' buf' s' => Ok (OFall l' buf' s')
       end
     | SRet r => eval_ret (call_fn (exec f E T) T) E r l buf s
     | SIfLet p sc body =>
@@ -300,7 +439,44 @@ Fixpoint exec (fuel : nat) (E : env) (T : table) (x : stmt) (l : locals) (buf : 
         match lookup y (fr :: l) with Some u => Ok (OFall (declare v u l) buf1 s1) | None => Panic end
       | Some (fr, ADiverge body) =>
         let* o := exec_scope (exec f E T) fr body l buf1 s1 in
-        match o with ORet _ _ _ => Ok o | OFall _ _ _ => Panic end
+        match o with ORet _ _ _ => Ok o | _ => Panic end
+      | None => Panic
+      end
+    | SClear => Ok (OFall l [] s)
+    | SExtendTake v =>
+      match lookup v l with
+      | Some (VOpt o) =>
+        match assign v (VOpt None) l with
+        | Some l' => Ok (OFall l' (buf ++ match o with Some b => [b] | None => [] end) s)
+        | None => Panic
+        end
+      | _ => Panic
+      end
+    | SLetM v e =>
+      let* r := eval_m (exec f E T) (call_fn (exec f E T) T) E f e l buf s in
+      match r with MV w l' buf' s' => Ok (OFall (declare v w l') buf' s') | MO o => Ok o end
+    | SLetPair v w e =>
+      let* r := eval_m (exec f E T) (call_fn (exec f E T) T) E f e l buf s in
+      match r with
+      | MV (VPair a b) l' buf' s' => Ok (OFall (declare w (VByte b) (declare v (VBool a) l')) buf' s')
+      | MV _ _ _ _ => Panic
+      | MO o => Ok o
+      end
+    | SAssignM v e =>
+      let* r := eval_m (exec f E T) (call_fn (exec f E T) T) E f e l buf s in
+      match r with
+      | MV w l' buf' s' => match assign v w l' with Some l'' => Ok (OFall l'' buf' s') | None => Panic end
+      | MO o => Ok o
+      end
+    | STry fn arg =>
+      let* (r, buf', s') := call_fn_v (exec f E T) T fn (option_map VBytes arg) s buf in
+      match r with RUnit => Ok (OFall l buf' s') | _ => Panic end
+    | SIgnoreStr => let* s' := Str.ignore_str E s in Ok (OFall l buf s')
+    | SBreak => Ok (OBrk l buf s)
+    | SMatchG sc arms =>
+      let* (v, buf1, s1) := eval_scrut (call_fn (exec f E T) T) E sc s buf in
+      match select_g arms v l with
+      | Some (fr, body) => exec_scope (exec f E T) fr body l buf1 s1
       | None => Panic
       end
     end
@@ -327,6 +503,6 @@ Definition run_scan_v (fuel : nat) (E : env) (T : table) (fn : string) (arg : op
     | None => Panic
     | Some fr =>
       let* o := exec_block (exec fuel E T) (fbody d) [fr] buf s in
-      match o with ORet r buf' s' => Ok (r, buf', s') | OFall _ _ _ => Panic end
+      match o with ORet r buf' s' => Ok (r, buf', s') | _ => Panic end
     end
   end.
